@@ -33,6 +33,7 @@ OPTIONS = {
     "length_header": ("none", "equal_length+series_length", "series_length"),
     "univariate": ("yes", "no"),
 }
+ROW_LABELS = [2, 0, 1, 3, 4, 5]  # the written panel has a non-default row index: labels must not be used as positions
 COMMENT = " ".join("note%d" % i for i in range(40))
 
 
@@ -196,7 +197,7 @@ def rule_roundtrip(ctx, repo):
         vfs = M.VFS()
         wi = Interp(repo, M.make_externals(vfs), M.to_float, M.str_hook)
         try:
-            wi.call_function(mod, writer, [M.PanelSym(cases), "/out"], dict(kw))
+            wi.call_function(mod, writer, [M.PanelSym(cases, index=ROW_LABELS[:len(cases)]), "/out"], dict(kw))
         except Undecided as e:
             undec.append(("R1", "writer", sc, str(e)))
             continue
